@@ -20,9 +20,9 @@ EXPLANATION = (
     "and a size, the size is len() of that same payload at the call; get_bytes() returns a fresh BytesIO of the payload "
     "or the stored stream rewound to 0 (an empty stream when there is none). (VIEW) for page/slide/sheet formats the "
     "document-level iterate_images / iterate_tables walk exactly the per-unit lists the unit views hand out. (REF) package "
-    "part names are resolved by the format's path-normalisation helper, whose guard keeps every remaining component."
+    "part names are resolved by the format's path-normalisation helper, whose guard keeps every remaining component. (CHAIN) the PDF filter tables for format and content type have the same keys and matching values, and a /Filter array is judged by its last element (PDF 32000-1 7.4.1: what get_data() leaves encoded is the last filter)."
 )
-NOT_DECIDED = ["bytes identical to the embedded file; content type; pixel size", "that no image is invented (relationship parsing is value level)"]
+NOT_DECIDED = ["bytes identical to the embedded file; content type; pixel size", "that no image is invented (relationship parsing is value level)", "which image records a reader filters out or reuses by identity (orphan relationships, per-document caches keyed by object number)"]
 TRUSTED = ["may-raise table (listed in the explanation); string methods, slicing, dataclass constructors and the dimension sniffers are assumed not to raise",
            "CFG path enumeration (cap 4096 paths per loop body; a capped loop is residual)"]
 FLOORS = {"C14-JPEG": 4, "C14-PAIR": 12, "C14-BYTES": 20, "C14-VIEW": 6, "C14-REF": 1, "C14-CHAIN": 8}
